@@ -115,6 +115,23 @@ class C13(Check):
             # simulated network; requests arrive on the wire (segmented), answers are read off the wire
             draw_full_stack(rng2, scn)
             scn["early_send"] = False
+        scn["slow_worker"] = None
+        if index % 10 == 6 and not scn.get("full_stack") and index % 16 != 13:
+            # slow parties: a handler that takes a round number of seconds (give or take milliseconds), and / or a
+            # connection worker that is descheduled for seconds while it hands one answer to the connection and other
+            # answers are due.  Coarse tickers keep the simulated seconds cheap.
+            rng5 = random.Random(rng2.getrandbits(48))
+            cand = [r for r in reqs if r["registered"]]
+            for r in rng5.sample(cand, min(len(cand), rng5.choice([1, 1, 2]))):
+                base_ = r["outcome"] if r["outcome"] in ("generic", "typed", "none", "raise_value") else "generic"
+                r["outcome"] = "slow_" + base_
+                r["slow"] = rng5.choice([1.0, 5.0, 10.0, 30.0, 60.0]) + rng5.choice([-0.002, 0.0, 0.002, 0.02, 0.04])
+            if rng5.random() < 0.6:
+                scn["slow_worker"] = {"at_answer": rng5.randrange(1, 4), "dur": rng5.choice([0.5, 2.0, 6.0, 12.0])}
+            knobs.update({"BROMELIA_TICKER": 0.02, "PROCESS_TIMER": rng5.choice([0.02, 0.2]), "SEND_THRESHOLD_TICKER": 0.05})
+            scn["early_send"] = False
+            scn["horizon"] = 240.0
+            scn["max_steps"] = 12_000_000
         for r in reqs:
             if r["registered"] and r["outcome"] in ("generic", "typed") and rng2.random() < 0.2:
                 r["outcome"] = "nested"
@@ -186,9 +203,20 @@ class C13(Check):
             nested = {}
             nested_bad = []
 
+            answers_seen = [0]
+
             def on_send_nested(stub, msg, raw):
                 # the peer answers the requests the handlers send
                 if not msg.header.is_request():
+                    answers_seen[0] += 1
+                    sw = scn.get("slow_worker")
+                    if sw and answers_seen[0] == sw["at_answer"] and not wb.full_stack:
+                        # stalled-thread fault: the worker's send thread is descheduled while it holds the hand-over
+                        t_ = sim.cur
+                        sim.stalled[t_.tid] = max(sim.stalled.get(t_.tid, 0.0), sim.now + sw["dur"])
+                        sim.stalls_fired += 1
+                        sim.log("stall", t_.role, sw["dur"])
+                        sim.probe("slow_worker")
                     return
                 d = nested.get(msg.header.hop_by_hop.hex())
                 if d is None:
@@ -327,7 +355,7 @@ class C13(Check):
             # still making progress (handlers starting / finishing, answers leaving); the verdict is taken once
             # everything is answered or nothing has moved for D (+ the handlers' own sleeps).  A run whose step or
             # time budget runs out first is inconclusive for the liveness clauses.
-            quiet = D + max([r["slow"] for r in scn["reqs"]] + [0.0]) + max([r.get("nested_delay", 0.0) for r in scn["reqs"]] + [0.0])
+            quiet = ((scn.get("slow_worker") or {}).get("dur") or 0.0) + D + max([r["slow"] for r in scn["reqs"]] + [0.0]) + max([r.get("nested_delay", 0.0) for r in scn["reqs"]] + [0.0])
 
             def progress():
                 return (len(invocations), len(finished), sum(len(st_.sent) for st_ in wb.stubs), len(nested))
@@ -437,6 +465,7 @@ class C13(Check):
                            extra={"max_inflight": stats["max_inflight"], "failures": stats["failures"],
                                   "faults": {"handler_failure_outcome": stats["failures"],
                                              "requests_in_flight_max": stats["max_inflight"],
+                                             "thread_stall": sim.stalls_fired,
                                              "preemption_in_bromelia_code": sim.preempt_line + sim.preempt_opcode}})
 
 
